@@ -162,3 +162,49 @@ edges_of_same_color = FunctionContract(
             ("g_edges = self._ge_partitions[ge_color]", "g_edges = self._ge_partitions[sge_color]")],
 )
 CONTRACTS.append(edges_of_same_color)
+
+
+# ------------------------------------------------------------------ ISMAGS._remove_node: which node is dropped under the symmetry constraints
+RNode = TKey('RNode')
+Constraint = TTuple(RNode, RNode, names=['low', 'high'])
+
+
+def setup_rn(cx):
+    nodes = cx.val('NODES', TSet(RNode))
+    cons = cx.val('CONSTRAINTS', TSeq(Constraint))
+    node0 = cx.val('node', RNode)
+    cx.spec_env.update(NODES=nodes, CONSTRAINTS=cons, NODE0=node0)
+    # above(a, b): b can stand in for a - ANY reflexive, transitive relation that contains the usable constraints (low, high) with
+    # high still in the set; what holds for every such relation holds for the closure of the constraints
+    above = cx.uf('above', [RNode, RNode], TBool)
+    a, b, c = [z3.Const(n, RNode.sort()) for n in ('ra', 'rb', 'rc')]
+    k = z3.Int('rk')
+    st = TSeq(Constraint)
+    cx.assume(z3.ForAll([a], above(a, a)))
+    cx.assume(z3.ForAll([a, b, c], z3.Implies(z3.And(above(a, b), above(b, c)), above(a, c))))
+    cx.assume(z3.ForAll([k], z3.Implies(z3.And(0 <= k, k < st.len(cons.e), z3.Select(nodes.e, Constraint.get(st.at(cons.e, k), 1))),
+                                        above(Constraint.get(st.at(cons.e, k), 0), Constraint.get(st.at(cons.e, k), 1)))))
+    cx.spec_env['frozenset'] = Builtin(lambda e, s: s, 'frozenset')      # an immutable copy: the same set of elements
+    return dict(node=node0, nodes=nodes, constraints=cons)
+
+
+SPEC_RN = {
+    # no usable constraint leads on from x
+    'terminal': "lambda x: forall(lambda k: implies(0 <= k and k < len(CONSTRAINTS), not (CONSTRAINTS[k].low == x and CONSTRAINTS[k].high in NODES)))",
+}
+remove_node_sym = FunctionContract(
+    F, 'ISMAGS._remove_node', 'C06', setup=setup_rn, spec_defs=SPEC_RN, spec_env=dict(RNode=RNode),
+    ensures=[
+        # exactly one node is dropped: one that can stand in for the given node through a chain of usable constraints (the node
+        # itself if there is none) and from which no usable constraint leads on; termination is not shown
+        "forall(lambda x: (x in result) == (x in NODES and x != node), RNode)",
+        "above(NODE0, node) and terminal(node)",
+    ],
+    loops={'L1': LoopSpec(inv=["above(NODE0, node)"], modifies=[]),
+           'L1.1': LoopSpec(inv=["forall(lambda k: implies(0 <= k and k < _i, not (CONSTRAINTS[k].low == node and CONSTRAINTS[k].high in NODES)))",
+                                 "above(NODE0, node)"], modifies=[])},
+    canary=[("if low == node and high in nodes:", "if low == node:"),
+            ("for low, high in constraints:", "for high, low in constraints:"),
+            ("return frozenset(nodes - {node})", "return frozenset(nodes)")],
+)
+CONTRACTS.append(remove_node_sym)
